@@ -14,6 +14,9 @@ def run(chk, replay):
         # headers with repeated names and names that look like generated keys (FieldKeys.tla) are well-formed too
         from harness import keys
         keys.phase(chk, "taste")
+        # the working directory changes between validations of plotfiles typed under a relative name (PoolEnv.tla)
+        from harness import poolenv
+        poolenv.tool_phase(chk, "taste")
 
 
 def real_history_phase(chk):
